@@ -174,7 +174,7 @@ func genYModsCase(r *Rng) Case {
 			"import-cycle", "import-self", "import-missing", "unknown-prefix", "unknown-typedef", "unknown-grouping", "unknown-feature", "unknown-identity",
 			"dup-feature", "dup-identity", "dup-typedef", "dup-grouping", "bad-augment-path", "dev-race", "include-cycle", "include-missing",
 			"sub-import-missing", "sub-import-cycle", "orphan-submodule", "orphan-submodule", "ref-status", "ref-status", "ref-status", "sub-identity",
-			"sub-import-missing", "sub-import-cycle", "sub-import-missing", "sub-import-cycle", "sub-feature-cycle"})
+			"sub-import-missing", "sub-import-cycle", "sub-import-missing", "sub-import-cycle", "sub-feature-cycle", "uses-augment-abs"})
 		if modsOnlyStatus {
 			f = "ref-status"
 		}
@@ -307,6 +307,9 @@ func genYModsCase(r *Rng) Case {
 		case "sub-feature-cycle":
 			// two features of a submodule that depend on each other, and a leaf under one of them
 			carr(all["mc"], "subs")[0].(mspec)["featcycle"] = true
+		case "uses-augment-abs":
+			// the augment of a uses written with an absolute path: an error (the parser lets either form through)
+			s["usesAugAbs"] = true
 		case "orphan-submodule":
 			// a submodule of a module that is not supplied (alone it would be the only text of a set: here it comes with others)
 			c["orphan"] = pick(r, []string{"nowhere", "mz"})
@@ -485,6 +488,9 @@ func renderMod(c Case, s mspec) string {
 	if x := cstr(s, "usesSub"); x != "" {
 		fmt.Fprintf(&b, "  container %ssubu { uses %sgb; }\n", m, x)
 	}
+	if cbool(s, "usesAugAbs") {
+		fmt.Fprintf(&b, "  grouping %sgabs { container gc; }\n  container %suabs { uses %sgabs { augment \"/gc\" { leaf x { type string; } } } }\n", m, m, m)
+	}
 	if t := cstr(s, "subleaf"); t != "" {
 		st := ""
 		if x := cstr(s, "subleafst"); x != "" {
@@ -600,7 +606,7 @@ var modsClasses = []struct{ sub, cls string }{
 	{"Typedef cyclic reference", "err:typedef-cycle"}, {"Grouping cycle detected", "err:grouping-cycle"},
 	{"cycle detected", "err:import-cycle"}, {"module not found", "err:ref"}, {"unknown submodule", "err:ref"}, {"unknown import", "err:ref"}, {"non-existent module", "err:ref"}, {"cannot reference", "err:status"},
 	{"unknown type", "err:ref"}, {"Unknown grouping", "err:ref"}, {"not valid", "err:ref"}, {"Can't find base", "err:ref"},
-	{"Invalid path", "err:ref"}, {"cannot shadow", "err:dup"}, {"Duplicate", "err:dup"}, {"redefinition", "err:dup"}, {"already defined", "err:dup"},
+	{"Invalid path", "err:ref"}, {"expected descendant schema id", "err:ref"}, {"cannot shadow", "err:dup"}, {"Duplicate", "err:dup"}, {"redefinition", "err:dup"}, {"already defined", "err:dup"},
 	{"Property being added", "err:dev"}, {"Only existing", "err:dev"},
 }
 
